@@ -15,6 +15,8 @@ var verifSeeds = []string{
 	"package p\n\ncss k(c string) {\n\tcolor: { c };\n\twidth: 1px;\n}\n\nscript f(a string) {\n\talert(a);\n}\n\ntempl e(n string) {\n\t<style>p{}</style>\n\t<script>var q = {{ n }};</script>\n\t<button class={ k(n) } onclick={ f(n) }>b</button>\n}\n",
 	// 4: function literals and function types inside templ element expressions and arguments
 	"package p\n\ntempl g(f func() string) {\n\t@func() templ.Component {\n\t\treturn h(f)\n\t}()\n\t@h(func() string { return \"x\" }) {\n\t\t<b>k</b>\n\t}\n\t{ func(s string) string { return s }(\"y\") }\n}\n\ntempl h(f func() string) {\n\t{ f() }\n}\n",
+	// 5: the top-level declaration lines (the file parser decides line by line what starts a template)
+	"package p\n\nimport \"fmt\"\n\nscript f(a string) {\n\talert(a);\n}\n\ncss k() {\n\tcolor: red;\n}\n\ntempl t() {\n\t<p>{ fmt.Sprint(1) }</p>\n}\n\nfunc g() string {\n\treturn \"templ x(\"\n}\n",
 }
 
 // verifPos is the reference position of a byte index: line = newlines before it, col = bytes
@@ -174,6 +176,11 @@ func VerifC06Holes() {
 		default:
 			input += string(seed[i])
 		}
+	}
+	if symBool("bom") {
+		// a file saved with a byte order mark: whatever the parser makes of it, positions are
+		// positions in the file as given
+		input = "\uFEFF" + input
 	}
 	tf, err := ParseString(input)
 	symCover("holes")
